@@ -19,14 +19,61 @@ import project
 R = "R-BUDGET"
 
 
-def _calls_on(body, lid):
+def _calls_on(body, lids, dead):
     out = []
     for x in walk(body):
-        if x.get("k") in ("Call", "MCall"):
+        if id(x) in dead:
+            continue
+        if x.get("k") == "Inl":                       # an inlined stage is still a call of that stage
+            o = x["orig"]
+            args = ([o["recv"]] if o["k"] == "MCall" else []) + o["args"]
+            if any((root_local(a) or (None,))[0] in lids for a in args):
+                out.append((x["name"], o))
+        elif x.get("k") in ("Call", "MCall"):
             args = ([x["recv"]] if x["k"] == "MCall" else []) + x["args"]
-            if any((root_local(a) or (None,))[0] == lid for a in args):
+            if any((root_local(a) or (None,))[0] in lids for a in args):
                 out.append(((callee(x) or {}).get("name") or x.get("name"), x))
     return out
+
+
+def _lit_bool(facts, e, scheme, known):
+    e = strip(e)
+    for _ in range(6):
+        if e.get("k") == "Block" and e.get("expr") is not None and (not e.get("stmts") or e.get("projected")):
+            e = strip(e["expr"])
+        else:
+            break
+    if e.get("k") == "Lit" and e.get("v") in ("true", "false"):
+        return e["v"] == "true"
+    lo = local_of(e)
+    if lo and lo[0] in known:
+        return known[lo[0]]
+    if e.get("k") == "Un" and e.get("op") == "!":
+        v = _lit_bool(facts, e["e"], scheme, known)
+        return None if v is None else (not v)
+    r = project.eval_cond(facts, e, scheme)
+    return r if r in (True, False) else None
+
+
+def _dead_nodes(facts, body, scheme):
+    """nodes inside branches that cannot run under `scheme`: conditions on boolean locals (or helper parameters) whose
+    value is a literal or a scheme test once the scheme is fixed"""
+    known = {}
+    for _ in range(3):
+        for x in walk(body):
+            if x.get("k") == "Let" and x["pat"].get("k") == "PBind" and "init" in x and facts.ty(x["pat"]) == "bool":
+                v = _lit_bool(facts, x["init"], scheme, known)
+                if v is not None:
+                    known[x["pat"]["lid"]] = v
+    dead = set()
+    for x in walk(body):
+        if x.get("k") == "If":
+            v = _lit_bool(facts, x["c"], scheme, known)
+            if v is True and x.get("el") is not None:
+                dead |= {id(y) for y in walk(x["el"])}
+            elif v is False:
+                dead |= {id(y) for y in walk(x["th"])}
+    return dead
 
 
 def run(facts, rep):
@@ -39,19 +86,31 @@ def run(facts, rep):
     n = 0
     # ---------------- pipeline, per scheme
     for sc in ("BFV", "BGV"):
-        body = project.project(facts, facts.hir[p], sc)
+        body = project.project(facts, facts.inlined(p, pred=facts.extracted_helper), sc)    # an extracted phase helper is read in place
         defs = Defs(body)
+        dead = _dead_nodes(facts, body, sc)
         buf = None
         for x in walk(body):
             if x.get("k") == "MCall" and x.get("name") == "dot_product_ct_sk_array" and len(x["args"]) >= 2:
                 buf = root_local(x["args"][1])
+        # a helper that returns the buffer: the caller's local bound to the call is the same buffer
+        bufs = {buf[0]} if buf else set()
+        for _ in range(3):
+            for x in walk(body):
+                if x.get("k") == "Let" and x["pat"].get("k") == "PBind" and "init" in x:
+                    i0 = strip(x["init"])
+                    if i0.get("k") == "Inl":
+                        t0 = i0["body"].get("expr") if i0["body"].get("k") == "Block" else None
+                        rl = root_local(t0) if t0 is not None else None
+                        if rl and rl[0] in bufs:
+                            bufs.add(x["pat"]["lid"])
         n += 1
         key = "pipeline/" + sc
         if buf is None:
             rep.violation(R, key, "invariant_noise_budget no longer computes the phase with dot_product_ct_sk_array into a local "
                           "buffer", facts.loc(p))
             continue
-        seq = [(nm, x) for nm, x in _calls_on(body, buf[0]) if nm in
+        seq = [(nm, x) for nm, x in _calls_on(body, bufs, dead) if nm in
                ("dot_product_ct_sk_array", "multiply_scalar_inplace_p", "multiply_scalar_inplace_ps", "compose_array", "poly_infty_norm")]
         names = [nm for nm, _ in seq]
         want = ["dot_product_ct_sk_array"] + (["multiply_scalar_inplace_p"] if sc == "BFV" else []) + ["compose_array", "poly_infty_norm"]
